@@ -307,6 +307,7 @@ func init() {
 		in.allocBudget = in.allocBytes + concIntArg(a[1])
 		return nil
 	})
+	zz("zzBudgetCheck", func(in *Interp, a []Val) Val { return nil })
 	zz("zzOrderMode", func(in *Interp, a []Val) Val {
 		in.orderMode = concStr(a[0])
 		return nil
